@@ -1284,3 +1284,132 @@ func ruleMARKER(c *Ctx, r *Report) {
 	}
 	r.floor(rule, "marker comparisons", n, 8)
 }
+
+// SPLIT-SAFE (C02/C03): the range functions re-split the already serialised boundary text. That is
+// only sound if (i) the split is unbounded (strings.Split, or SplitN with n < 0) on a separator that
+// occurs exactly once in the constant part of the boundary skeleton, and (ii) anything but exactly two
+// parts is an error — then a separator inside a value can only produce an error, never a mis-split.
+func ruleSPLITSAFE(c *Ctx, r *Report) {
+	const rule = "SPLIT-SAFE"
+	r.doc(rule, "the range functions split the serialised boundary with an unbounded split on a separator occurring exactly once in the boundary skeleton's constant text, and reject any part count other than two; both range functions split the same way")
+	pt := c.pgPreamble(r, rule)
+	dr := c.driverRoles()
+	if pt == nil || dr.Err != "" {
+		return
+	}
+	var fns []*ssa.Function
+	if e := pt.Eff["expr.Range"]; e != nil && e.Fn != nil {
+		fns = append(fns, e.Fn)
+	}
+	if dr.RangeParam != nil {
+		fns = append(fns, dr.RangeParam)
+	}
+	// separator occurrences in the boundary skeletons
+	sepCount := func(sep string) (min, max int) {
+		min, max = 1<<30, 0
+		for _, ser := range []*ssa.Function{dr.Ser, dr.SerParam} {
+			rows, _ := c.successSkeletons(ser)
+			for _, row := range rows {
+				isRB := false
+				for _, a := range row.P.Atoms {
+					if a.Kind == "type" && a.Pos && a.Subj == "$1" && a.Val == "*expr.RangeBoundary" {
+						isRB = true
+					}
+				}
+				if !isRB {
+					continue
+				}
+				n := 0
+				for _, l := range skelLits(row.Skel) {
+					n += strings.Count(l, sep)
+				}
+				if n < min {
+					min = n
+				}
+				if n > max {
+					max = n
+				}
+			}
+		}
+		return
+	}
+	var shapes []string
+	for _, fn := range fns {
+		n := 0
+		for _, b := range fn.Blocks {
+			for _, in := range b.Instrs {
+				call, ok := in.(*ssa.Call)
+				if !ok {
+					continue
+				}
+				name := calleeFullName(call)
+				if !strings.HasPrefix(name, "strings.Split") && name != "strings.Cut" && name != "strings.Fields" && name != "strings.FieldsFunc" {
+					continue
+				}
+				n++
+				key := fnName(fn) + "|" + name
+				pos := c.instrPos(in)
+				shape := name
+				okSplit := false
+				switch name {
+				case "strings.Split":
+					okSplit = true
+				case "strings.SplitN":
+					if lim, ok := constIntVal(call.Call.Args[2]); ok && lim < 0 {
+						okSplit = true
+					}
+					shape += fmt.Sprintf("(n=%s)", c.key(call.Call.Args[2], nil))
+				}
+				sep, isC := "", false
+				if len(call.Call.Args) >= 2 {
+					sep, isC = constStringVal(call.Call.Args[1])
+				}
+				shape += fmt.Sprintf("(sep=%q)", sep)
+				shapes = append(shapes, shape)
+				if !okSplit {
+					r.bad(rule, key+"|bounded", pos, fmt.Sprintf("%s splits the serialised range text with %s: a bounded or first-match split takes a separator that occurs inside the lower bound's value for the boundary between the two ends, producing malformed SQL instead of an error", fnName(fn), shape))
+					continue
+				}
+				if !isC || sep == "" {
+					r.bad(rule, key+"|separator", pos, "the separator is not a constant")
+					continue
+				}
+				mn, mx := sepCount(sep)
+				if mn != 1 || mx != 1 {
+					r.bad(rule, key+"|separator", pos, fmt.Sprintf("the separator %q occurs %d..%d times in the constant text of the serialised boundary; it must occur exactly once", sep, mn, mx))
+					continue
+				}
+				// part count checked: a dominating/following len(parts) != 2 → error
+				checked := false
+				partsK := c.key(call, nil)
+				paths, _ := c.enumPaths(fn, 20000)
+				for _, p := range paths {
+					if p.Ret == nil {
+						continue
+					}
+					nres := len(p.Ret.Results)
+					if isNilConst(c.resolve(p.Ret.Results[nres-1], p.Env)) {
+						lo, hi := lenRange(p.Atoms, partsK)
+						if lo != 2 || hi != 2 {
+							checked = false
+							goto done
+						}
+						checked = true
+					}
+				}
+			done:
+				if checked {
+					r.ok(rule, key, pos, fmt.Sprintf("unbounded split on %q (once in the skeleton); every success path has exactly two parts", sep))
+				} else {
+					r.bad(rule, key+"|count", pos, fnName(fn)+" can succeed with a part count other than two")
+				}
+			}
+		}
+		if n == 0 {
+			r.bad(rule, fnName(fn)+"|no-split", c.pos(fn.Pos()), "no recognisable split of the serialised range text")
+		}
+	}
+	if len(shapes) == 2 && shapes[0] != shapes[1] {
+		r.bad(rule, "sibling|split-shape", "-", fmt.Sprintf("the inline and parameterized range functions split the boundary text differently: %v", shapes))
+	}
+}
